@@ -589,6 +589,61 @@ def check_end_headers(P, R, consts):
                      'with a stale continuation and that part (and what follows) is lost or refused',
                      why='a read boundary inside CRLFCRLF must not change the result', key_extra='clear-on-found')
 
+    # where the header block ends once the pending continuation has arrived: the terminator began len(CRLFCRLF) - len(continuation) bytes before this chunk,
+    # i.e. at  base + len(continuation) - len(CRLFCRLF)  (a linear identity, checked symbolically)
+    from .c19 import Lin
+    crlf2_len = len(consts['CRLFx2'])
+
+    def lin(e, at, keep=()):
+        e = T.expand(f, e, at, keep=tuple(f.params) + tuple(keep))
+        return _lin(e)
+
+    def _lin(e):
+        if isinstance(e, ast.Constant) and isinstance(e.value, int):
+            return Lin(e.value)
+        if isinstance(e, ast.Name):
+            try:
+                v_ = T.ceval(f, e)
+                if isinstance(v_, int):
+                    return Lin(v_)
+            except T.CannotEval:
+                pass
+            return Lin.sym(e.id)
+        if isinstance(e, ast.Call) and dotted(e.func) == 'len' and len(e.args) == 1:
+            try:
+                v_ = T.ceval(f, e.args[0])
+                if isinstance(v_, (bytes, str)):
+                    return Lin(len(v_))
+            except T.CannotEval:
+                pass
+            return Lin.sym('len(' + src(e.args[0]) + ')')
+        if isinstance(e, ast.BinOp) and isinstance(e.op, (ast.Add, ast.Sub)):
+            l_, r_ = _lin(e.left), _lin(e.right)
+            if l_ is None or r_ is None:
+                return None
+            return l_ + r_ if isinstance(e.op, ast.Add) else l_ - r_
+        if isinstance(e, ast.UnaryOp) and isinstance(e.op, ast.USub):
+            v_ = _lin(e.operand)
+            return None if v_ is None else Lin(0) - v_
+        return None
+    for pt in pend:
+        pname = compare_parts(pt.ast)[0].id
+        for r in pos_rets:
+            # the return under `chunk_start == <pending>`
+            eqs = [t for t in gh.nodes if t.kind == 'test' and compare_parts(t.ast) and compare_parts(t.ast)[1] is ast.Eq and
+                   pname in (src(compare_parts(t.ast)[0]), src(compare_parts(t.ast)[2])) and gh.edge_dominates(t, 'true', r)]
+            if not eqs:
+                continue
+            got = lin(r.ast.value, r, keep=(pname,))
+            want = Lin.sym(f.params[2]) + Lin.sym(f'len({pname})') - Lin(crlf2_len)
+            if got is None:
+                R.undecided('C06.g', f, r.ast, 'header end position', f'`{short(r.ast.value)}` is not a linear expression of the chunk offset and the continuation length')
+                continue
+            okp = got == want
+            R.ob('C06.g', f, r.ast, okp, text=f'`{short(r.ast)}` = {f.params[2]} + len({pname}) - {crlf2_len}', detail='' if okp else
+                 f'the header end reported when the cut terminator is completed is `{got}`, not `{want}`: right only for the symmetric cut CRLF|CRLF; a cut after the 1st or 3rd '
+                 f'byte moves the header / data border by two bytes (a field name loses its last characters, or the value its first ones)',
+                 why='a read boundary inside CRLFCRLF must not change the result', key_extra='header-end-position')
     # a chunk that holds only a proper head of the pending continuation consumes that head: the continuation is shortened before waiting on
     pend_names = {compare_parts(pt.ast)[0].id for pt in pend}
     for n in gh.nodes:
